@@ -231,7 +231,8 @@ def _rand(args):
         ev.append({"tid": tid, "ev": "Iter", "k": k, "t": [0] * kmin, "lg1mt": [0] * kmin,
                    "model_units": max(units(ofro(X - Xm), max(ofro(X), 1e-300) * noise, 4 * max(m, n) * (k + 1)),
                                       units(dev, noise, 64 * (k + 1) * max(1.0, (s[0] / min([v for v in s if v > 0], default=1.0)) ** 2)) if True else 0),
-                   "e1_lg": lg(ofro(omul(AX, A) - A) / nrmA)})
+                   # below the rounding level eps * cond(A) of forming A X A the residual is noise: reported as zero
+                   "e1_lg": (lambda e_: lg(e_) if e_ > 2.0 ** -46 * (max(s) / min([v for v in s if v > 0], default=1.0)) else -100000)(ofro(omul(AX, A) - A) / nrmA)})
     return ev, {"cls": cls, "s": list(map(float, s)), "shape": [m, n], "gamma": gamma, "solver": solver}
 
 
